@@ -81,7 +81,8 @@ where
     // for now, write this as a type alias; we may want to change this to a newtype
     // in the future
     if let Some(comment) = comment {
-        for line in comment.split('\n') {
+        // a doc comment ends at any line break; a bare carriage return is not even allowed in one
+        for line in comment.split(['\n', '\r']) {
             writeln!(writer, "/// {line}")?;
         }
     }
@@ -153,7 +154,8 @@ where
     let rust_name = xml_name_to_rust_name(xml_name);
 
     if let Some(comment) = comment {
-        for line in comment.split('\n') {
+        // a doc comment ends at any line break; a bare carriage return is not even allowed in one
+        for line in comment.split(['\n', '\r']) {
             writeln!(writer, "/// {line}")?;
         }
     }
